@@ -108,6 +108,14 @@ Definition global_maximum2 (o : itab2) : res T :=
   rbind (min_element row_minima) (fun f_min => rbind (max_element row_maxima) (fun f_max =>
     Ok (nmax Ops (jpre o * f_min) (jpre o * f_max))%num)))).
 
+(** Numerics.hpp:45-48 / 80-83:  double operator()(double x) { return Interpolate(x); }   double operator()(double x, double y) { return Interpolate(x, y); } *)
+Definition call1 (o : itab) (x : T) : res T := interpolate Ops o x.
+Definition call2 (o : itab2) (x y : T) : res T := interpolate2 Ops o x y.
+(** the public data member "the whole domain":  domain = {x_values[0], x_values[N - 1]};  (1-D constructor)
+    domain = {x_int.domain, y_int.domain};  (2-D constructor) -- as a list, so that a change of its length is seen *)
+Definition domain1 (o : itab) : list T := [idom0 o; idom1 o].
+Definition domain2 (o : itab2) : list (list T) := [domain1 (jxint o); domain1 (jyint o)].
+
 (** ** The part of an object that Locate, the knot scan of Local_Minimum/Maximum and Global_Minimum/Maximum read:
     N, x_values, function_values, prefactor and domain (no Steffen coefficients).  The driver uses it for tables too long
     to materialise the coefficient lists of at once (C08_Proofs_Life.v: the functions named agree on it with the full object). *)
